@@ -601,7 +601,7 @@ BIG_CAPACITY = re.compile(r"\[[^\]\n]*(?:\*\*|[eE]\d|\d{7,}|[A-Za-z_])[^\]\n]*\]
 def known_finding(case, obs, known):
     if not isinstance(obs, dict) or case.get("k") != "ns":
         return None
-    texts = list(case.get("files", {}).values())
+    texts = list(case.get("files", {}).values())  # (the branches below never look at error message texts for a verdict)
     for k in known:
         sig = k.get("signature", {})
         if sig.get("kind") == "int-max-str-digits":
@@ -610,8 +610,11 @@ def known_finding(case, obs, known):
                     (obs.get("hint") == "int-max-str-digits" or any(HUGE_INT.search(t) for t in texts)):
                 return "%s %s" % (k.get("id", "?"), k.get("description", "")[:200])
         if sig.get("kind") == "offset-expansion":
-            # InternalError wrapping OverflowError / MemoryError on a definition that uses _offset_ after a huge array
-            if obs.get("out") == "CInternal" and obs.get("culprit") in ("OverflowError", "MemoryError", "VisitationError") and \
+            # InternalError wrapping OverflowError / MemoryError (or a raw MemoryError / a process that ran out of memory) on
+            # a definition that uses _offset_ after a huge array
+            shaped = obs.get("out") == "CInternal" and obs.get("culprit") in ("OverflowError", "MemoryError", "VisitationError")
+            shaped = shaped or (obs.get("out") == "COther" and obs.get("culprit") == "MemoryError") or bool(obs.get("harness_fail"))
+            if shaped and \
                     any(("_offset_" in t or "_bit_length_" in t) and BIG_CAPACITY.search(t) for t in texts):
                 return "%s %s" % (k.get("id", "?"), k.get("description", "")[:200])
         if sig.get("kind") == "recursion-depth-fields":
